@@ -6,9 +6,11 @@ import (
 	. "github.com/elliotchance/gedcom/v39/internal/vsym"
 )
 
-// vSmallNode: plain node with a symbolic value from {A,B}, a BIRT, or a DATE with a symbolic year.
+// vSmallNode: plain node with a symbolic value from {A,B}, a BIRT, a RESI, or a DATE with a symbolic year.
 func vSmallNode(name string) Node {
-	switch VsChoose(name+".kind", 3) {
+	switch VsChoose(name+".kind", 4) {
+	case 3:
+		return NewNode(TagResidence, "", "") // positioned by the year of its DATE child when a diff is sorted
 	case 1:
 		return NewNode(TagBirth, "", "")
 	case 2:
@@ -135,14 +137,22 @@ func vCheckDiff(d *NodeDiff, left, right Node) {
 		}
 	}
 	VsAssert("one-sided-entries-have-no-counterpart", one)
+	// IsDeepEqual is "no one-sided entry anywhere"
+	allTwo := true
+	for _, de := range es {
+		if IsNil(de.e.Left) || IsNil(de.e.Right) {
+			allTwo = false
+		}
+	}
+	VsAssert("is-deep-equal-iff-every-entry-is-two-sided", d.IsDeepEqual() == allTwo)
 }
 
 // VerifC08_Diff: two independent small trees; after computing the diff a sequence of two diff
 // operations (String / IsDeepEqual / Sort / Tag) in every order; inputs must stay untouched.
-// cs: left children = cs%3, right children = cs/3%3, grandchildren = cs/9%2.
+// cs: left children = cs%3, right children = cs/3%3, left grandchild = cs/9%2, right grandchild = cs/18%2.
 func VerifC08_Diff(cs int) {
 	left := vSmallTree("l", cs%3, cs/9%2 == 1)
-	right := vSmallTree("r", cs/3%3, false)
+	right := vSmallTree("r", cs/3%3, cs/18%2 == 1)
 	lBefore, rBefore := left.GEDCOMString(0), right.GEDCOMString(0)
 	d := CompareNodes(left, right)
 	VsObserve(lBefore)
@@ -151,12 +161,10 @@ func VerifC08_Diff(cs int) {
 	VsAssert("computing-a-diff-leaves-left-untouched", VsStrEq(left.GEDCOMString(0), lBefore))
 	VsAssert("computing-a-diff-leaves-right-untouched", VsStrEq(right.GEDCOMString(0), rBefore))
 	vCheckDiff(d, left, right)
-	for step := 0; step < 2; step++ {
-		nops := 4
-		if step == 1 {
-			nops = 3 // the second operation: String, IsDeepEqual or Sort
-		}
-		switch VsChoose(fmt.Sprintf("op%d", step), nops) {
+	// Two operations. Sort is the one that rearranges the diff, so every sequence has it: any of the
+	// four operations followed by Sort, and Sort followed by any of String / IsDeepEqual / Sort.
+	apply := func(op int) {
+		switch op {
 		case 0:
 			VsObserve(d.String())
 		case 1:
@@ -169,6 +177,13 @@ func VerifC08_Diff(cs int) {
 		}
 		VsAssert("diff-operations-leave-left-untouched", VsStrEq(left.GEDCOMString(0), lBefore))
 		VsAssert("diff-operations-leave-right-untouched", VsStrEq(right.GEDCOMString(0), rBefore))
+	}
+	first := VsChoose("op0", 4)
+	apply(first)
+	if first == 2 {
+		apply(VsChoose("op1", 3))
+	} else {
+		apply(2)
 	}
 	vCheckDiff(d, left, right)
 }
@@ -203,4 +218,11 @@ func VerifC08_Equal(cs int) {
 		}
 	}
 	VsAssert("extra-leaf-has-an-entry", found)
+	// the same one level deeper: a leaf that only the left tree has below its first child
+	left.DeleteNode(extra)
+	deep := NewNode(TagFromString("UNIQ"), "y", "")
+	left.Nodes()[0].AddNode(deep)
+	d3 := CompareNodes(left, right)
+	VsAssert("extra-deep-leaf-is-not-deep-equal", !d3.IsDeepEqual())
+	vCheckDiff(d3, left, right)
 }
